@@ -11,6 +11,33 @@ from typing import List
 from .line_writer import LineWriter
 
 
+def python_string_literal(value: str) -> str:
+    """
+    Render text taken from the specification as a double-quoted Python string literal.
+
+    Backslashes, double quotes and every non-printable character (line breaks, control
+    characters, Unicode line/paragraph separators, ...) are escaped, so the literal occupies
+    one source line, cannot terminate early and evaluates to exactly the original text.
+    Printable text, including non-ASCII, is kept as it is.
+    """
+    parts = []
+    for ch in value:
+        code_point = ord(ch)
+        if ch == "\\":
+            parts.append("\\\\")
+        elif ch == '"':
+            parts.append('\\"')
+        elif ch.isprintable():
+            parts.append(ch)
+        elif code_point < 0x100:
+            parts.append(f"\\x{code_point:02x}")
+        elif code_point < 0x10000:
+            parts.append(f"\\u{code_point:04x}")
+        else:
+            parts.append(f"\\U{code_point:08x}")
+    return '"' + "".join(parts) + '"'
+
+
 class CodeWriter:
     """
     Utility for writing indented code blocks with support for line wrapping and function signatures.
